@@ -99,6 +99,7 @@ type Node struct {
 	everKnown map[string]bool
 	expired   map[string]bool      // subjects this node has expired at least once
 	lastHeard map[string]time.Time // subject -> last delta packet received from it
+	learnedAt map[string]time.Time // subject -> when this node (last) learned of it
 	zombie    map[string]bool      // subjects re-learned through the known finding F2
 	ups       []*fakeUp
 }
@@ -467,29 +468,20 @@ func (s *Sim) build(N int, fixedSizes []int) {
 	c.Header["no_sweep"] = s.noSweep
 	var sizes []int
 	for i := 0; i < N; i++ {
-		addr := fmt.Sprintf("127.0.0.1:%d", 7000+i)
-		n := &Node{idx: i, id: fmt.Sprintf("n%d", i), addr: addr,
-			hist: map[uint64]gossip.Entry{}, lastVer: map[string]uint64{}, forget: map[string]int{},
-			prev: map[string]gossip.NodeMetadata{}, everKnown: map[string]bool{}, expired: map[string]bool{},
-			lastHeard: map[string]time.Time{}, zombie: map[string]bool{}}
-		mv := minViablePacket(n.id, addr)
+		mv := minViablePacket(fmt.Sprintf("n%d", i), fmt.Sprintf("127.0.0.1:%d", 7000+i))
 		choices := []int{1400, 700, 400, 300, mv + 40, mv + 7, mv + 1, mv}
 		if !p.TinyPackets {
 			choices = choices[:5]
 		}
+		var maxPacket int
 		if fixedSizes != nil {
-			n.maxPacket = fixedSizes[i]
+			maxPacket = fixedSizes[i]
 		} else {
-			n.maxPacket = choices[c.Pick("maxPacket", len(choices))]
+			maxPacket = choices[c.Pick("maxPacket", len(choices))]
 		}
-		sizes = append(sizes, n.maxPacket)
-		n.cs = cluster.NewState(&cluster.Node{ID: n.id, ProxyAddr: "proxy-" + n.id, AdminAddr: "admin-" + n.id}, log.NewNopLogger())
-		n.mgr = upstream.NewLoadBalancedManager(n.cs, nil)
-		n.syncer = sgossip.VerifNewSyncer(n.cs)
-		n.w = &recWatcher{s: s, self: n.id, f: map[string]*foldNode{}, next: n.syncer}
-		n.n = gossip.VerifNewNode(n.id, addr, n.maxPacket, gossipInterval, &simConn{s, addr}, n.w)
-		n.syncer.VerifSync(n.n.State)
-		s.byAddr[addr] = n
+		sizes = append(sizes, maxPacket)
+		n := s.newNode(i, maxPacket)
+		s.byAddr[n.addr] = n
 		s.nodes = append(s.nodes, n)
 		s.snapshotLocal(n)
 	}
@@ -497,6 +489,56 @@ func (s *Sim) build(N int, fixedSizes []int) {
 	for _, n := range s.nodes[1:] {
 		s.doJoin(n, s.nodes[0])
 	}
+}
+
+// newNode wires one node: real gossip state, handlers, failure detector, syncer,
+// cluster state and upstream manager.
+func (s *Sim) newNode(i int, maxPacket int) *Node {
+	addr := fmt.Sprintf("127.0.0.1:%d", 7000+i)
+	n := &Node{idx: i, id: fmt.Sprintf("n%d", i), addr: addr, maxPacket: maxPacket,
+		hist: map[uint64]gossip.Entry{}, lastVer: map[string]uint64{}, forget: map[string]int{},
+		prev: map[string]gossip.NodeMetadata{}, everKnown: map[string]bool{}, expired: map[string]bool{},
+		lastHeard: map[string]time.Time{}, learnedAt: map[string]time.Time{}, zombie: map[string]bool{}}
+	n.cs = cluster.NewState(&cluster.Node{ID: n.id, ProxyAddr: "proxy-" + n.id, AdminAddr: "admin-" + n.id}, log.NewNopLogger())
+	n.mgr = upstream.NewLoadBalancedManager(n.cs, nil)
+	n.syncer = sgossip.VerifNewSyncer(n.cs)
+	n.w = &recWatcher{s: s, self: n.id, f: map[string]*foldNode{}, next: n.syncer}
+	n.n = gossip.VerifNewNode(n.id, addr, n.maxPacket, gossipInterval, &simConn{s, addr}, n.w)
+	n.syncer.VerifSync(n.n.State)
+	return n
+}
+
+// Restart replaces a node that is gone (left or crashed) and that no other running
+// node remembers by a new incarnation with the same id and address and an empty
+// state: "the node really returns". Everything in flight is lost.
+func (s *Sim) Restart(x *Node) *Node {
+	for _, o := range s.nodes {
+		if o != x && !o.crashed {
+			if _, known := o.n.State.Node(x.id); known {
+				s.c.Harnessf("restart of %s while %s still remembers it", x.id, o.id)
+			}
+		}
+	}
+	s.q = nil
+	n := s.newNode(x.idx, x.maxPacket)
+	s.nodes[x.idx] = n
+	s.byAddr[n.addr] = n
+	for _, o := range s.nodes {
+		if o == n {
+			continue
+		}
+		delete(o.lastVer, n.id)
+		delete(o.prev, n.id)
+		delete(o.everKnown, n.id)
+		delete(o.expired, n.id)
+		delete(o.lastHeard, n.id)
+		delete(o.learnedAt, n.id)
+		delete(o.zombie, n.id)
+	}
+	s.snapshotLocal(n)
+	s.c.Stepf("%s: returns as a new incarnation (empty state)", n.id)
+	s.c.Class("node-returns")
+	return n
 }
 
 func (s *Sim) snapshotLocal(n *Node) {
@@ -1007,6 +1049,7 @@ func (s *Sim) trackForget() {
 				obs.forget[owner.id]++
 				obs.expired[owner.id] = true
 				delete(obs.lastVer, owner.id)
+				delete(obs.lastHeard, owner.id)
 			}
 		}
 	}
@@ -1371,6 +1414,7 @@ func (s *Sim) checkMembership() {
 					}
 				}
 				o.everKnown[id] = true
+				o.learnedAt[id] = now
 			}
 		}
 		for id, p := range o.prev {
@@ -1414,6 +1458,16 @@ func (s *Sim) checkMembership() {
 				susp := o.n.Suspicion(id)
 				if m.Unreachable != (susp > gossip.VerifSuspicionThreshold) {
 					c.Fatalf("C11 I5: %s: %s unreachable=%v but suspicion level is %v (threshold %d)", o.id, id, m.Unreachable, susp, gossip.VerifSuspicionThreshold)
+				}
+				// a peer that was learned recently and has not been heard from since is
+				// measured against the bootstrap interval alone (whatever was known about
+				// an earlier incarnation of that id is gone with it)
+				if la, ok := o.learnedAt[id]; ok && m.Unreachable {
+					// (lastHeard is cleared when the peer is forgotten, as the detector's state is)
+					_, heard := o.lastHeard[id]
+					if !heard && now.Sub(la) <= time.Duration(gossip.VerifSuspicionThreshold)*2*gossipInterval {
+						c.Fatalf("C11 I5: %s learned of %s only %v ago and has never heard from it (since it last forgot it), yet marks it unreachable (a never-heard peer is suspected after %d bootstrap intervals of %v)", o.id, id, now.Sub(la), gossip.VerifSuspicionThreshold, 2*gossipInterval)
+					}
 				}
 				if lh, ok := o.lastHeard[id]; ok && lh.Equal(now) && m.Unreachable {
 					c.Fatalf("C11 I5: %s heard from %s at this very instant yet marks it unreachable", o.id, id)
